@@ -338,9 +338,18 @@ pub fn name_guarded() -> bool {
     std::env::var("VERIF_C04_NAME_GUARD").map(|v| v.contains("first")).unwrap_or(false)
 }
 
-/// the `<headerLen>` token of the op lines: `14` or `14+g` (guarded)
+/// what `try_fast_get` / `try_fast_set` answer to a frame that is not complete yet: `NeedMoreData`
+/// (the code as it is) or `NotFastPath` (the prepared fix `fixes-conn-s4`: an incomplete or unusual
+/// frame is left to the generic parser; with it come the LF / UTF-8 tests of the recognisers, the
+/// execution of collected commands below `batch_threshold` and the ACL test of the batching gate).
+/// Read from the SOURCE by ./check (`VERIF_C04_INCOMPLETE`) — the model has the flag `repaired`
+pub fn repaired() -> bool {
+    std::env::var("VERIF_C04_INCOMPLETE").map(|v| v.contains("NotFastPath")).unwrap_or(false)
+}
+
+/// the `<headerLen>` token of the op lines: `14`, then `+g` (guarded) and / or `+r` (repaired)
 pub fn hl_token() -> String {
-    if name_guarded() { format!("{}+g", header_len()) } else { header_len().to_string() }
+    format!("{}{}{}", header_len(), if name_guarded() { "+g" } else { "" }, if repaired() { "+r" } else { "" })
 }
 
 /// `str::split_whitespace` yields nothing for this command name (after from_utf8_lossy / to_uppercase)
